@@ -336,6 +336,7 @@ def case(arg):
                 "summary": ref_text(sbyk["summary"]["refs"]), "extra_filetypes": "inc !"}
         if seed % 4 == 1:
             opts["project_url"] = "https://example.org/docs"  # where the site will be published: [[references]] stay links between its pages
+            opts["search"] = seed % 8 == 1  # (the search index then holds absolute URLs)
         if seed % 5 == 2:
             # the output directory is reached through a symbolic link
             os.makedirs(os.path.join(base, "real_out"))
